@@ -15,6 +15,7 @@ import (
 	"google.golang.org/grpc"
 	"google.golang.org/grpc/codes"
 	"google.golang.org/grpc/metadata"
+	"google.golang.org/grpc/stats"
 	"google.golang.org/grpc/status"
 	"google.golang.org/protobuf/proto"
 	"google.golang.org/protobuf/reflect/protoreflect"
@@ -249,6 +250,7 @@ type c14Script struct {
 	trailer metadata.MD
 	fail    bool
 	replies int
+	split   bool // set header and trailer metadata one value per call
 }
 
 // c14Extra: a trailer key that is also a header key over gRPC-web, and header metadata in
@@ -344,18 +346,52 @@ func c14Extra(c *Ctx) {
 	}
 }
 
+// c14NoStats is a stats.Handler that records nothing: installing it must not change what
+// the handler and the client see.
+type c14NoStats struct{}
+
+func (c14NoStats) TagRPC(ctx context.Context, _ *stats.RPCTagInfo) context.Context   { return ctx }
+func (c14NoStats) HandleRPC(context.Context, stats.RPCStats)                         {}
+func (c14NoStats) TagConn(ctx context.Context, _ *stats.ConnTagInfo) context.Context { return ctx }
+func (c14NoStats) HandleConn(context.Context, stats.ConnStats)                       {}
+
 func c14API(c *Ctx) {
 	c14Web(c)
 	c14Extra(c)
+	c14Main(c, false)
+	c14Main(c, true)
+}
+
+// c14SetSplit hands md to set one value per call, keys in sorted order: the values of a key
+// arrive over several calls and must still be delivered in the order they were set.
+func c14SetSplit(md metadata.MD, set func(metadata.MD)) {
+	keys := make([]string, 0, len(md))
+	for k := range md {
+		keys = append(keys, k)
+	}
+	sort.Strings(keys)
+	for _, k := range keys {
+		for _, v := range md[k] {
+			set(metadata.MD{k: []string{v}})
+		}
+	}
+}
+
+func c14Main(c *Ctx, withStats bool) {
 	var sc c14Script
 	var seen metadata.MD
 	run := func(ctx context.Context) error {
 		seen, _ = metadata.FromIncomingContext(ctx)
-		if len(sc.header) > 0 {
-			grpc.SetHeader(ctx, sc.header) //nolint
-		}
-		if len(sc.trailer) > 0 {
-			grpc.SetTrailer(ctx, sc.trailer) //nolint
+		if sc.split {
+			c14SetSplit(sc.header, func(md metadata.MD) { grpc.SetHeader(ctx, md) })   //nolint
+			c14SetSplit(sc.trailer, func(md metadata.MD) { grpc.SetTrailer(ctx, md) }) //nolint
+		} else {
+			if len(sc.header) > 0 {
+				grpc.SetHeader(ctx, sc.header) //nolint
+			}
+			if len(sc.trailer) > 0 {
+				grpc.SetTrailer(ctx, sc.trailer) //nolint
+			}
 		}
 		if sc.fail {
 			return status.Error(codes.FailedPrecondition, "scripted failure")
@@ -373,7 +409,9 @@ func c14API(c *Ctx) {
 			return err
 		}
 		seen, _ = metadata.FromIncomingContext(st.Context())
-		if len(sc.header) > 0 {
+		if sc.split {
+			c14SetSplit(sc.header, func(md metadata.MD) { st.SetHeader(md) }) //nolint
+		} else if len(sc.header) > 0 {
 			st.SetHeader(sc.header) //nolint
 		}
 		for i := 0; i < sc.replies; i++ {
@@ -381,7 +419,9 @@ func c14API(c *Ctx) {
 				return err
 			}
 		}
-		if len(sc.trailer) > 0 {
+		if sc.split {
+			c14SetSplit(sc.trailer, st.SetTrailer)
+		} else if len(sc.trailer) > 0 {
 			st.SetTrailer(sc.trailer)
 		}
 		if sc.fail {
@@ -389,10 +429,14 @@ func c14API(c *Ctx) {
 		}
 		return nil
 	}
+	var muxOpts []larking.MuxOption
+	if withStats {
+		muxOpts = append(muxOpts, larking.StatsOption(c14NoStats{}))
+	}
 	fx, err := NewFixture([]*MethodSpec{
 		{Name: "U", In: "Req", Out: "Reply", Unary: unary, Rule: getRule("/c14/u")},
 		{Name: "S", In: "Req", Out: "Reply", ServerStream: true, Stream: stream, Rule: getRule("/c14/s")},
-	}, nil)
+	}, nil, muxOpts...)
 	if err != nil || fx.RegErr != nil || fx.RegPanic != nil {
 		c.SpecFail("fixture", "c14", fmt.Sprint(err, fx.RegErr, fx.RegPanic), "registered", "C14/fixture", "fixture registration failed")
 		return
@@ -432,9 +476,9 @@ func c14API(c *Ctx) {
 	sameVals := func(got, want []string) bool { return strings.Join(got, "\x00") == strings.Join(want, "\x00") }
 
 	for i := 0; i < c.N(60, 1500); i++ {
-		sc = c14Script{header: genMD("h-", c.Rng.Intn(3) == 0), trailer: genMD("t-", c.Rng.Intn(3) == 0), fail: c.Rng.Intn(2) == 0, replies: c.Rng.Intn(3)}
+		sc = c14Script{header: genMD("h-", c.Rng.Intn(3) == 0), trailer: genMD("t-", c.Rng.Intn(3) == 0), fail: c.Rng.Intn(2) == 0, replies: c.Rng.Intn(3), split: c.Rng.Intn(2) == 0}
 		reqMD := genMD("q-", false)
-		in := fmt.Sprintf("req=%s hdr=%s trl=%s fail=%v replies=%d", mdLine(reqMD), mdLine(sc.header), mdLine(sc.trailer), sc.fail, sc.replies)
+		in := fmt.Sprintf("req=%s hdr=%s trl=%s fail=%v replies=%d one-value-per-call=%v stats-handler=%v", mdLine(reqMD), mdLine(sc.header), mdLine(sc.trailer), sc.fail, sc.replies, sc.split, withStats)
 		streaming := i%2 == 1
 
 		// ---------- gRPC with grpc-go
